@@ -25,8 +25,12 @@ def _key(side, ver, detail):
             return "py2-int-written-as-long"
         if re.search(r"kind str vs (unicode|UnicodeForPython3)", detail) or "non-string found in code slot" in detail:
             return "py2-str-written-as-unicode"
+        if ver.startswith("2.5dropbox") and re.search(r"kind bytes vs str", detail):
+            return "dropbox-bytes-read-back-as-str"
         if re.search(r"vs u'b'", detail) or re.search(r"kind unicode vs str|kind UnicodeForPython3 vs str", detail):
             return "py2-unicode-constant-mangled"
+    if ver == "3.8" and "co_code should be one of the types" in detail:
+        return "3.8-alpha-magic-written-with-posonlyargcount"
     return "%s:%s:%s" % (side, ver, detail.split(":")[0][:60])
 
 
@@ -87,12 +91,22 @@ def check(tier="quick", seed=0):
     vio, n, notes, refused = [], 0, [], {}
     try:
         extra = _extra_oracles(tmp)
+        import glob
+        corpus = []
+        for d in sorted(glob.glob(os.path.join(repo, "test", "bytecode_*"))):
+            if "dropbox" in d:
+                continue          # obfuscated 2.5: the reader decrypts into its own compat classes; there is no target Python to compare with
+            fs = sorted(glob.glob(os.path.join(d, "*.py[co]")), key=lambda q: (os.path.getsize(q), q))
+            corpus += fs[:2] if tier == "quick" else fs
+        cj = os.path.join(tmp, "corpus.json")
+        with open(cj, "w") as fh:
+            json.dump(corpus, fh)
         for hx in hosts:
             if not os.path.exists(hx):
                 continue
             env = dict(os.environ, PYTHONPATH=repo, PYTHONDONTWRITEBYTECODE="1")
             d = {"cases": []}
-            for refdir in (os.path.join(HERE, "spec", "ref"), extra):
+            for refdir in (os.path.join(HERE, "spec", "ref"), extra, cj):
                 p = subprocess.run([hx, os.path.join(HERE, "ground", "pyc_roundtrip_worker.py"), refdir, tmp], capture_output=True, text=True, env=env, timeout=900)
                 try:
                     d1 = json.loads(p.stdout)
@@ -116,6 +130,8 @@ def check(tier="quick", seed=0):
                         vio.append({"name": "C13/bounded/xdis-reread", "key": _key("reread", c["version"], dd), "host": host, "input": key, "detail": dd[:300]})
                     by_ver.setdefault(c["version"], []).append(c)
             for ver, cases in sorted(by_ver.items()):
+                if ver not in PY:
+                    continue          # corpus directory without a matching interpreter (1.x-2.6, 3.0-3.5, PyPy, dropbox): xdis re-read only
                 exe = "/root/.pyenv/versions/%s/bin/python" % PY[ver]
                 if not os.path.exists(exe):
                     notes.append("no interpreter for %s" % ver)
@@ -131,6 +147,8 @@ def check(tier="quick", seed=0):
                     n += 1
                     for dd in dl or []:
                         if dd.startswith("ORACLE-PROBLEM"):
+                            if c.get("corpus"):
+                                break        # a corpus file its nominal interpreter cannot load (interim magic): xdis re-read only
                             return {"name": "ground.pyc_roundtrip", "error": dd, "obligations": [], "violations": []}
                         vio.append({"name": "C13/bounded/target-interpreter", "key": _key("target", ver, dd), "host": host,
                                     "input": "%s/%s" % (c["version"], c["program"]), "detail": dd[:300]})
@@ -143,6 +161,6 @@ def check(tier="quick", seed=0):
             seen.add(v["key"])
             uniq.append(v)
     return {"name": "ground.pyc_roundtrip", "kind": "bounded",
-            "bound": "12 stored programs + 1 compiled at check time (boundary ints, frozensets of bytes, non-Latin-1 text) x 9 bytecode versions (2.7, 3.6-3.13) x %d host(s); writer refused: %s" % (len(hosts), json.dumps(refused, sort_keys=True)[:300]),
+            "bound": "%d corpus files (xdis re-read; target interpreter where installed) + 12 stored programs + 1 compiled at check time (boundary ints, frozensets of bytes, non-Latin-1 text) x 9 bytecode versions (2.7, 3.6-3.13) x %d host(s); writer refused: %s" % (len(corpus), len(hosts), json.dumps(refused, sort_keys=True)[:300]),
             "evaluations": n, "violations": uniq, "obligations": [], "samples": [{"refused": refused}], "skipped": "; ".join(notes) or None,
             "assumptions": ["bounded: program equality is judged by the target interpreter's marshal.loads on 12 generated programs per version; execution of the rewritten file is not compared (field equality of code objects implies it)"]}
